@@ -288,6 +288,11 @@ def _type_matches(interp, x, t):
             return True
         return isinstance(x, t.pytypes)
     if isinstance(t, IM.ClassVal):
+        if isinstance(x, Fld) and x.kind.modulus is None and not hasattr(x.kind, "is_instance_of"):
+            # an abstract field element stands for an object of SOME field class: the test has no single answer
+            raise Unsupported(f"isinstance({t.name}) on an abstract field element (the unit must fix the class)")
+        if isinstance(x, Fld) and hasattr(x.kind, "is_instance_of"):
+            return x.kind.is_instance_of(t)
         return isinstance(x, IM.Obj) and x.cls.is_subclass(t)
     if isinstance(t, FldKind):
         return isinstance(x, Fld)
@@ -549,7 +554,12 @@ def b_type(interp, *args):
             return x.kind
         if isinstance(x, (bytes, SBytes)):
             return BytesT
-        return TypeMarker(type(x).__name__, (type(x),))
+        if hasattr(x, "sym_type"):
+            return x.sym_type(interp)
+        if x is None or isinstance(x, (bool, str, list, tuple, dict, set, frozenset, float, range, bytearray, type(NotImplemented))):
+            return TypeMarker(type(x).__name__, (type(x),))
+        # a symbolic value of the engine has no single Python type: never answer a type identity test by accident
+        raise Unsupported(f"type() of a symbolic value ({type(x).__name__})")
     name, bases, ns = args
     return IM.ClassVal(name, None, _FakeClassNode(name), list(bases), dict(ns))
 
